@@ -8,6 +8,9 @@ structure St where
   gs : List G := []
   ids : List Nat := []
   dim : Nat := 1
+  tagsOk : Bool := true
+  mortarHyps : List Bool := []
+  signHyp : Bool := true
 
 def jTrip (j : Json) : R Trip :=
   match j with
@@ -17,8 +20,12 @@ def jTrip (j : Json) : R Trip :=
     | _ => throw s!"not a triplet: {j.compress}"
   | _ => throw s!"not a triplet: {j.compress}"
 
-def jG (j : Json) : R G := do
-  pure ⟨← fNat j "cells", ← fNat j "faces", ← fNat j "gdim", ← fNats j "bfaces"⟩
+/-- grid data; boundary faces come as the tag mask (0/1 per face) and are extracted by the model's `whereTrue`;
+    the flag says whether the mask has one entry per face -/
+def jG (j : Json) : R (G × Bool) := do
+  let faces ← fNat j "faces"
+  let mask := (← fNats j "btags").map (fun b => b != 0)
+  pure (⟨← fNat j "cells", faces, ← fNat j "gdim", whereTrue 0 mask⟩, mask.length == faces || mask.isEmpty)
 
 def jIntf (j : Json) : R Intf := do
   let prim ← jOpt jNat (fieldD j "prim" .null)
@@ -44,33 +51,40 @@ def step (st : St) (j : Json) : R (St × Json) := do
   let op ← fStr j "op"
   match op with
   | "init" =>
-    let gs ← (field j "grids" >>= jList jG)
+    let gts ← (field j "grids" >>= jList jG)
+    let gs := gts.map (·.1)
     let ids ← fNats j "ids"
     let dim ← fNat j "dim"
     if ids.length != gs.length then throw "ids/grids length mismatch" else
     let unique ← fBool j "unique"
     -- SubdomainProjections.__init__ : `len(set(subdomains)) < len(subdomains)` → ValueError
-    if unique && ids.eraseDups.length < ids.length then pure (st, err "ValueError")
-    else pure (⟨gs, ids, dim⟩, Json.str "ok")
+    match (if unique then ctorCheck ids else .ok ()) with
+    | .error e => pure (st, err (errName e))
+    | .ok _ => pure ({ gs := gs, ids := ids, dim := dim, tagsOk := gts.all (·.2) }, Json.str "ok")
   | "sub" =>
     let kind ← fStr j "kind"
     let sel ← fNats j "sel"
     -- dictionary look-up by grid: position of the id in the list (a missing id → past the end → KeyError)
     let pos := sel.map (fun i => st.ids.idxOf i)
+    let isList := !(← jBool (fieldD j "as_tuple" (.bool false)))
     match kind with
-    | "cell_prolongation" => pure (st, ofRes (cellProlongation st.gs st.dim pos))
-    | "cell_restriction" => pure (st, ofRes (cellRestriction st.gs st.dim pos))
-    | "face_prolongation" => pure (st, ofRes (faceProlongation st.gs st.dim pos))
-    | "face_restriction" => pure (st, ofRes (faceRestriction st.gs st.dim pos))
+    | "cell_prolongation" => pure (st, ofRes (subCall false false isList st.gs st.dim pos))
+    | "cell_restriction" => pure (st, ofRes (subCall true false isList st.gs st.dim pos))
+    | "face_prolongation" => pure (st, ofRes (subCall false true isList st.gs st.dim pos))
+    | "face_restriction" => pure (st, ofRes (subCall true true isList st.gs st.dim pos))
     | _ => throw s!"unknown kind {kind}"
   | "mortar" =>
     let intfs ← (field j "intfs" >>= jList jIntf)
     let toMortar ← fBool j "to_mortar"
     let isPrimary ← fBool j "is_primary"
-    pure (st, ofRes (constructProjection st.gs st.dim intfs toMortar isPrimary))
+    pure ({ st with mortarHyps := st.mortarHyps ++ [hypMortar st.gs intfs toMortar isPrimary] },
+      ofRes (constructProjection st.gs st.dim intfs toMortar isPrimary))
   | "sign" =>
     let intfs ← (field j "intfs" >>= jList jIntf)
-    pure (st, ofRats (signDiag st.dim intfs))
+    pure ({ st with signHyp := hypSign intfs }, ofRats (signDiag st.dim intfs))
+  | "hyps" =>
+    pure (st, obj [("grids", .bool (hypGrids st.gs && st.tagsOk)), ("dim", .bool (decide (0 < st.dim))),
+                   ("mortar", ofList Json.bool st.mortarHyps), ("sign", .bool st.signHyp)])
   | "boundary" =>
     match boundaryProjection st.gs st.dim with
     | .ok m => pure (st, obj [("s2b", ofMat m), ("b2s", ofMat m.transpose)])
